@@ -365,6 +365,39 @@ Proof.
   cbn [fold_left bar_next snd]. destruct t; try reflexivity. congruence.
 Qed.
 
+(* boolean side condition "every bar token closes an exactly filled bar" (remaining capacity 0) *)
+Fixpoint bars_exact (c : cfg) (s : istate) (ts : list tok) : bool :=
+  match ts with
+  | [] => true
+  | t :: ts' => (match t with TBar => i_rem s =? 0 | _ => true end) && bars_exact c (info_next c s t) ts'
+  end.
+
+Lemma bars_exact_app : forall c l1 l2 s,
+  bars_exact c s (l1 ++ l2) = bars_exact c s l1 && bars_exact c (info_run c l1 s) l2.
+Proof.
+  intros c l1; induction l1 as [|t l1 IH]; intros l2 s; cbn [app bars_exact]; [reflexivity|].
+  rewrite IH. unfold info_run; cbn [fold_left]. rewrite andb_assoc. reflexivity.
+Qed.
+
+Lemma skipn_nth_error : forall {A} (l : list A) k x, nth_error l k = Some x -> skipn k l = x :: skipn (S k) l.
+Proof.
+  intros A l; induction l as [|y l IH]; intros [|k] x H; cbn in H; try discriminate.
+  - inversion H; reflexivity.
+  - cbn [skipn]. rewrite (IH k x H). reflexivity.
+Qed.
+
+(* then the start of the bar after a bar token is the annotated time of that bar token *)
+Theorem C19_bar_start_exact : forall c imp ts k,
+  bars_exact c (istate0 c) ts = true -> nth_error ts k = Some TBar ->
+  bar_start c ts (S k) = nth k (f_time (get_info c imp ts)) 0.
+Proof.
+  intros c imp ts k Hb Hk. rewrite (bar_start_snoc_bar c ts k Hk).
+  destruct (C19_entries c imp ts k TBar Hk) as (E1 & _). rewrite E1.
+  rewrite <- (firstn_skipn k ts), bars_exact_app, (skipn_nth_error ts k TBar Hk) in Hb.
+  apply andb_true_iff in Hb as [_ Hb]. cbn [bars_exact] in Hb. apply andb_true_iff in Hb as [Hb _].
+  apply Z.eqb_eq in Hb. lia.
+Qed.
+
 (* ------------------------------------------------------------------ non-vacuity *)
 Definition ex_cfg : cfg := make_cfg 2 60 62 None None 4 true true false true true.
 Definition ex_toks : list tok :=
